@@ -302,6 +302,9 @@ class Interp:
         elif isinstance(b, VList) and isinstance(slice_node, ast.Slice) \
                 and slice_node.lower is None and slice_node.upper is None:
             ctx.store(base, VList(b.ty, z3.IntVal(0), b.a))
+        elif hasattr(b.ty, "empty") and isinstance(slice_node, ast.Slice) \
+                and slice_node.lower is None and slice_node.upper is None:
+            ctx.store(base, b.ty.empty())
         else:
             self.unsupported(node, "del item on %r" % (b,))
 
@@ -348,6 +351,7 @@ class Interp:
                     names.add(sub.id)
                 elif isinstance(sub, ast.Attribute) and isinstance(sub.ctx, (ast.Store, ast.Del)):
                     root_cell(sub.value)
+                    root_cell(sub)
                     fields.add(ast.unparse(sub))
                 elif isinstance(sub, ast.Subscript) and isinstance(sub.ctx, (ast.Store, ast.Del)):
                     root_cell(sub.value)
@@ -415,6 +419,7 @@ class Interp:
         for g in spec.get("havoc_ghosts", []):
             gv = ctx.ghost[g]
             ctx.ghost[g] = self.fresh_like(gv, "hg_" + g)
+        return seen
 
     def fresh_like(self, v, base):
         if isinstance(v, (VInt, VBool, VStr, VElem, VSet, VCount)):
@@ -477,7 +482,8 @@ class Interp:
         entry._extra = dict(ctx.loop_extra.get(k, {}))
         self.check_inv(k, spec, "entry", entry)
         arm = ctx.choose(2, "loop")
-        self.havoc(node, spec)
+        nloc0 = ctx.nloc
+        seen = self.havoc(node, spec)
         self.rehavoc_iter(k)
         self.assume_inv(k, spec, entry)
         if arm == 0:
@@ -487,6 +493,9 @@ class Interp:
                 raise PathEnd()
             v0 = self.variant(k, spec, entry)
             body_prologue()
+            if not hasattr(ctx, "write_guards"):
+                ctx.write_guards = []
+            ctx.write_guards.append((seen, nloc0, "the body of loop #%d" % k))
             try:
                 self.exec_block(node.body)
             except ContinueSig:
@@ -494,6 +503,8 @@ class Interp:
             except BreakSig:
                 # leaves the loop with the state at the break
                 return
+            finally:
+                ctx.write_guards.pop()
             body_epilogue()
             self.check_inv(k, spec, "preserved", entry)
             if v0 is not None:
@@ -598,7 +609,8 @@ class Interp:
         entry._extra = dict(ex)
         self.check_inv(k, spec, "entry", entry)
         arm = ctx.choose(2, "loop")
-        self.havoc(node=s, spec=spec)
+        nloc0 = ctx.nloc
+        seen = self.havoc(node=s, spec=spec)
         proc = VSet(S.ty, z3.Const(fresh_name("proc%d" % k), S.ty.sort))
         ex["$proc"] = proc
         e = z3.Const(fresh_name("e"), S.ty.elem.sort)
@@ -608,12 +620,17 @@ class Interp:
             ctx.assume(z3.And(z3.Select(S.t, x), z3.Not(z3.Select(proc.t, x))))
             ex["$x"] = S.ty.elem.wrap(x)
             self.assign(s.target, make_target(x))
+            if not hasattr(ctx, "write_guards"):
+                ctx.write_guards = []
+            ctx.write_guards.append((seen, nloc0, "the body of loop #%d" % k))
             try:
                 self.exec_block(s.body)
             except ContinueSig:
                 pass
             except BreakSig:
                 return
+            finally:
+                ctx.write_guards.pop()
             ex["$proc"] = VSet(S.ty, z3.Store(proc.t, x, True))
             self.check_inv(k, spec, "preserved", entry)
             raise PathEnd()
@@ -671,6 +688,8 @@ class Interp:
             return hook(self.ctx, self, e)
         if not e.elts:
             ty = self.c.type_of_literal(e)
+            if hasattr(ty, "empty"):
+                return self.ctx.alloc(ty.empty())
             return self.ctx.alloc(empty_list(ty))
         items = [self.ctx.deref(self.eval(x)) for x in e.elts]
         oty = getattr(self.c, "opaque_list_type", None)
@@ -718,6 +737,8 @@ class Interp:
         if isinstance(o, VExc):
             if name in o.payload:
                 return o.payload[name]
+        if hasattr(type(o), "methods") and name in type(o).methods:
+            return VFunc(name, _bind(type(o).methods[name], obj))
         if isinstance(o, VPy):
             return VFunc(name, lambda ctx, it, args, kwargs: VPy("<str>"))
         if isinstance(o, (VSet, VList, VDict, VStr, VCount)) or isinstance(o, VTuple):
@@ -1068,6 +1089,10 @@ class Interp:
         """{f(x..) for x in S ...} over sets / lists / dict views with a pure
         element expression: result characterised by two skolemised axioms."""
         ctx = self.ctx
+        if kind == "list" and len(e.generators) == 1:
+            src = ctx.deref(self.eval(e.generators[0].iter))
+            if hasattr(src, "filter_comprehension"):
+                return src.filter_comprehension(self, e)
         saved_env = dict(ctx.env)
         bound = []      # (z3 const)
         member = []     # z3 Bool membership conditions
